@@ -195,6 +195,11 @@ fn run_case(case: &Value, variation: u64, vbp: &Path, scratch: &Path) -> Vec<Pro
     // pre-existing outputs of an earlier build
     let out_names = ["launch.toml", "build.sbom.cdx.json", "build.sbom.spdx.json", "build.sbom.syft.json", "launch.sbom.cdx.json", "launch.sbom.spdx.json", "launch.sbom.syft.json"];
     let pre = c("pre") == "yes";
+    // "blocked:<file>": a directory sits where that output file has to be written
+    let blocked = c("pre").strip_prefix("blocked:").map(str::to_string);
+    if let Some(f) = &blocked {
+        fs::create_dir_all(layers.join(f).join("not a file")).unwrap();
+    }
     if pre {
         for n in out_names {
             fs::write(layers.join(n), stale_content(n)).unwrap();
@@ -356,7 +361,7 @@ fn run_case(case: &Value, variation: u64, vbp: &Path, scratch: &Path) -> Vec<Pro
             p5(format!("build plan file was modified although no plan was to be written: {text:?}"));
         }
     }
-    if c("exe") == "build" && n_build > 0 || out["userbuild"] == 1 {
+    if (c("exe") == "build" && n_build > 0 || out["userbuild"] == 1) && blocked.is_none() {
         let want: BTreeSet<String> = out["files"].as_array().unwrap().iter().map(|v| v.as_str().unwrap().to_string()).collect();
         for n in out_names.iter().chain(["store.toml"].iter()) {
             let path = layers.join(n);
